@@ -2,6 +2,7 @@ use crate::engine::*;
 use serde_json::Value;
 
 pub mod incontext;
+pub mod related;
 pub mod c01;
 pub mod c02;
 pub mod c03;
@@ -50,8 +51,11 @@ pub fn run(ctx: &Ctx) -> Option<PropReport> {
 }
 
 pub fn replay(ctx: &Ctx, sub: &str, case: &Value) -> Result<(), Fail> {
-    if sub == "in-program-context" {
+    if sub == "in-program-context" || sub == "in-program-context-focused" {
         return incontext::replay(ctx, case);
+    }
+    if sub == "related-calls" {
+        return related::replay(ctx, case);
     }
     match ctx.prop.as_str() {
         "C01" => c01::replay(ctx, sub, case),
@@ -112,6 +116,7 @@ pub fn exec_custom_journal(v: &Value) -> Result<(), String> {
         "c13" => c13::exec_journalled(v),
         "c03-deep" => c03::exec_deep(v),
         "c20" => c20::exec_journalled(v),
+        "c01-io" => c01::exec_journalled_io(v),
         _ => Err("unknown journal kind".into()),
     }
 }
